@@ -75,7 +75,10 @@ static void load_with_oracle_inner(int entry, int prov, const std::string &bytes
   jwk_set_t *set = nullptr; size_t before = 0;
   // the existing set holds one good key; every second time it also carries the error of an earlier load of text that was not JSON (never cleared)
   bool stale_error = false;
-  if (entry == 1 || entry == 3 || entry == 6 || entry == 7) { set = jwks_create(GOOD_OCT.c_str()); if (DOC.size() & 2) { jwks_load(set, "{\"keys\": [ nope"); stale_error = jwks_error(set) != 0; st.cls("existing-set-with-stale-error"); } before = jwks_item_count(set); }
+  if (entry == 1 || entry == 3 || entry == 6 || entry == 7) { set = jwks_create(GOOD_OCT.c_str()); if (DOC.size() & 2) { jwks_load(set, "{\"keys\": [ nope"); stale_error = jwks_error(set) != 0; st.cls("existing-set-with-stale-error"); }
+    /* every second existing set was emptied first (drop the old keys, load the refreshed document): by free_all or item by item */
+    if (DOC.size() & 4) { if (DOC.size() & 8) jwks_item_free_all(set); else while (jwks_item_count(set) > 0 && jwks_item_free(set, 0)) {} st.cls("existing-set-emptied-before-the-load"); }
+    before = jwks_item_count(set); }
   bool via_create = DOC.size() & 1;
   jwk_set_t *r = nullptr;
   switch (entry) {
